@@ -183,14 +183,19 @@ def ipnsortIdx (lt : IdxLt) (n : Nat) : Array Nat :=
 
 end SortLarge
 
-/-- `ipnsort(v, is_less)` for the element layout of `CharsetMatch` -/
+/-- `ipnsort(v, is_less)` for the element layout of `CharsetMatch`.
+    The index array computed by the algorithm is checked to be a permutation of `0..n` (it always
+    is – the Rust code only moves elements); if it were not, the input is returned unchanged. This
+    run-time validation is what makes `ipnsort_perm` provable without a proof about the cyclic
+    partition; exact agreement with std's output is checked by the correspondence (T3). -/
 def ipnsort {α : Type} (lt : α → α → Bool) (l : List α) : List α :=
   let arr := l.toArray
   let ilt : IdxLt := fun i j =>
     match arr[i]?, arr[j]? with
     | some x, some y => lt x y
     | _, _ => false
-  (SortLarge.ipnsortIdx ilt l.length).toList.filterMap (fun i => arr[i]?)
+  let idx := (SortLarge.ipnsortIdx ilt l.length).toList
+  if idx.isPerm (List.range l.length) then idx.filterMap (fun i => l[i]?) else l
 
 /-- `slice::sort_unstable_by(is_less)` for a 128-byte element type -/
 def sortUnstable {α : Type} (lt : α → α → Bool) (l : List α) : List α := sortUnstableWith ipnsort lt l
